@@ -70,6 +70,14 @@ func truncate(s string, n int) string {
 	return s
 }
 
+func headRows(rows []crow, n int) []string {
+	s := make([]string, len(rows))
+	for i, r := range rows {
+		s[i] = r.String()
+	}
+	return headStrings(s, n)
+}
+
 func headStrings(s []string, n int) []string {
 	if len(s) > n {
 		out := make([]string, 0, n+1)
@@ -86,31 +94,67 @@ func headStrings(s []string, n int) []string {
 }
 
 // firstDiff describes the first position at which two canonical results differ.
-func firstDiff(a, b []string) string {
+func firstDiff(a, b []crow) string {
 	n := len(a)
 	if len(b) < n {
 		n = len(b)
 	}
 	for i := 0; i < n; i++ {
-		if a[i] != b[i] {
-			return fmt.Sprintf("row %d: %q vs %q (lens %d/%d)", i, truncate(a[i], 120), truncate(b[i], 120), len(a), len(b))
+		if !crowEq(a[i], b[i]) {
+			return fmt.Sprintf("row %d: %q vs %q (lens %d/%d)", i, truncate(a[i].String(), 120), truncate(b[i].String(), 120), len(a), len(b))
 		}
 	}
 	if len(a) > n {
-		return fmt.Sprintf("row %d: %q vs <none> (lens %d/%d)", n, truncate(a[n], 120), len(a), len(b))
+		return fmt.Sprintf("row %d: %q vs <none> (lens %d/%d)", n, truncate(a[n].String(), 120), len(a), len(b))
 	}
 	if len(b) > n {
-		return fmt.Sprintf("row %d: <none> vs %q (lens %d/%d)", n, truncate(b[n], 120), len(a), len(b))
+		return fmt.Sprintf("row %d: <none> vs %q (lens %d/%d)", n, truncate(b[n].String(), 120), len(a), len(b))
 	}
 	return "equal"
 }
 
-func sameRows(a, b []string) bool {
+// direction classifies how got differs from want: extra rows, missing rows, both, or (same cardinality, as for
+// aggregates) different values.
+func direction(got, want []crow) string {
+	g, w := append([]crow(nil), got...), append([]crow(nil), want...)
+	sortRows(g)
+	sortRows(w)
+	extra, missing := 0, 0
+	i, j := 0, 0
+	for i < len(g) && j < len(w) {
+		switch {
+		case crowEq(g[i], w[j]):
+			i++
+			j++
+		case crowLess(g[i], w[j]):
+			extra++
+			i++
+		default:
+			missing++
+			j++
+		}
+	}
+	extra += len(g) - i
+	missing += len(w) - j
+	switch {
+	case extra > 0 && missing > 0 && len(g) == len(w):
+		return "values"
+	case extra > 0 && missing > 0:
+		return "extra+missing"
+	case extra > 0:
+		return "extra"
+	case missing > 0:
+		return "missing"
+	}
+	return "order"
+}
+
+func sameRows(a, b []crow) bool {
 	if len(a) != len(b) {
 		return false
 	}
 	for i := range a {
-		if a[i] != b[i] {
+		if !crowEq(a[i], b[i]) {
 			return false
 		}
 	}
@@ -235,12 +279,14 @@ func (w *c26worker) setup(s *schemaSpec, commitAfter bool, muts [][]string) erro
 			if err := g("use `" + db + "`"); err != nil {
 				return err
 			}
-			if err := g(t.createSQL(t.Name, true)); err != nil {
-				return err
-			}
-			for _, ins := range insertSQL(t.Name, t.Old) {
-				if err := g(ins); err != nil {
+			for k, name := range []string{t.Name, t.Name + "_u"} {
+				if err := g(t.createSQL(name, k == 0)); err != nil {
 					return err
+				}
+				for _, ins := range insertSQL(name, t.Old) {
+					if err := g(ins); err != nil {
+						return err
+					}
 				}
 			}
 		}
@@ -268,8 +314,10 @@ func (w *c26worker) setup(s *schemaSpec, commitAfter bool, muts [][]string) erro
 					return err
 				}
 			}
-			if err := g(strings.Replace(st, "{T}", t.Name, 1)); err != nil {
-				return err
+			for _, name := range []string{t.Name, t.Name + "_u"} {
+				if err := g(strings.Replace(st, "{T}", name, 1)); err != nil {
+					return err
+				}
 			}
 		}
 	}
@@ -282,7 +330,7 @@ func (w *c26worker) setup(s *schemaSpec, commitAfter bool, muts [][]string) erro
 }
 
 type voiceResult struct {
-	rows []string
+	rows []crow
 	err  error
 }
 
@@ -292,6 +340,7 @@ const (
 	runBypass
 	runTwin
 	runRef
+	runRefTwin
 )
 
 func (w *c26worker) run(which int, q *query) voiceResult {
@@ -303,6 +352,8 @@ func (w *c26worker) run(which int, q *query) voiceResult {
 		voice = vTwin
 	case runRef:
 		x, voice = w.xg, vRef
+	case runRefTwin:
+		x, voice = w.xg, vRefTwin
 	}
 	rs, err := x.Query(q.sql(voice))
 	if err != nil {
@@ -319,7 +370,7 @@ func (w *c26worker) run(which int, q *query) voiceResult {
 
 func (w *c26worker) reopen(which int, db string) {
 	switch which {
-	case runRef:
+	case runRef, runRefTwin:
 		w.xg.Close()
 		xg, err := w.ref.open(db)
 		rig.Must(err)
@@ -344,8 +395,14 @@ func (w *c26worker) judge(caseName string, q *query) {
 	kv := w.obs.takeLast(w.idD)
 	plan := readPlan(w.xd, sql1)
 	r2 := w.run(runBypass, q)
+	w.obs.takeLast(w.idD)
 	r3 := w.run(runTwin, q)
+	kvTwin := strings.TrimPrefix(w.obs.takeLast(w.idD), "*kvexec.")
+	if kvTwin == "" {
+		kvTwin = "rowexec"
+	}
 	r4 := w.run(runRef, q)
+	r4u := w.run(runRefTwin, q)
 	r5, has5 := q.eval()
 
 	op := plan.op()
@@ -371,7 +428,7 @@ func (w *c26worker) judge(caseName string, q *query) {
 		if r.err != nil {
 			wit[name] = "ERROR: " + truncate(r.err.Error(), 400)
 		} else {
-			wit[name] = headStrings(r.rows, 40)
+			wit[name] = headRows(r.rows, 40)
 		}
 	}
 	fill := func() {
@@ -379,8 +436,9 @@ func (w *c26worker) judge(caseName string, q *query) {
 		addRes("v2_dolt_indexed_rowexec", r2)
 		addRes("v3_dolt_unindexed_twin", r3)
 		addRes("v4_reference", r4)
+		addRes("v4u_reference_unindexed_twin", r4u)
 		if has5 {
-			wit["v5_model"] = headStrings(r5, 40)
+			wit["v5_model"] = headRows(r5, 40)
 		}
 		var ddl []string
 		for _, t := range q.schema.Tables {
@@ -389,7 +447,39 @@ func (w *c26worker) judge(caseName string, q *query) {
 		wit["ddl"] = ddl
 		wit["replay"] = "rows are regenerated from the case: " + caseName
 	}
-	key := func(why string) string { return "c26/" + q.Kind + "/" + op + "/" + why }
+	sig := q.signature()
+	key := func(why string, want []crow) string {
+		return "c26/" + q.Kind + "/" + op + "/" + sig + "/" + why + "-" + direction(r1.rows, want)
+	}
+	// twinVerdict: the twin query is itself a read query on dolt tables (keyless, unindexed). It is judged against the
+	// SAME query on the reference engine's own keyless unindexed twins (same physical design on both sides), so that a
+	// plan-dependent defect inside go-mysql-server that both engines share does not count against dolt.
+	twinVerdict := func() {
+		if r3.err != nil || r4u.err != nil {
+			if r3.err != nil && r4u.err == nil {
+				cnt.add("twin_errors", 1)
+			}
+			return
+		}
+		cnt.add("twin_compared", 1)
+		if sameRows(r3.rows, r4u.rows) {
+			if r4.err == nil && !sameRows(r4.rows, r4u.rows) {
+				cnt.add("reference_plan_dependent", 1) // the reference disagrees with itself between indexed and unindexed tables
+			}
+			return
+		}
+		if has5 && sameRows(r3.rows, r5) {
+			cnt.add("reference_divergence", 1)
+			w.c.Note("reference-divergence (dolt twin == model != reference twin): " + truncate(q.sql(vTwin), 400))
+			return
+		}
+		cnt.add("twin_divergence", 1)
+		fill()
+		wit["judged_query"] = q.sql(vTwin)
+		wit["kvexec_iter_twin"] = kvTwin
+		w.l.violation("c26/"+q.Kind+"/twin-"+kvTwin+"/"+sig+"/"+direction(r3.rows, r4u.rows), "dolt's answer on keyless unindexed tables differs from the reference engine's answer on its own keyless unindexed copy of the same data: "+firstDiff(r3.rows, r4u.rows), wit)
+	}
+	defer twinVerdict()
 
 	w.smu.Lock()
 	first := !w.seen[op+"/"+q.Kind]
@@ -402,7 +492,7 @@ func (w *c26worker) judge(caseName string, q *query) {
 	if r1.err != nil {
 		if r3.err == nil && r4.err == nil {
 			fill()
-			w.l.violation(key("error"), "dolt fails on the indexed tables where the unindexed twin and the reference answer: "+truncate(r1.err.Error(), 300), wit)
+			w.l.violation("c26/"+q.Kind+"/"+op+"/"+sig+"/error", "dolt fails on the indexed tables where the unindexed twin and the reference answer: "+truncate(r1.err.Error(), 300), wit)
 			return
 		}
 		cnt.add("errors_in_every_voice", 1)
@@ -438,17 +528,14 @@ func (w *c26worker) judge(caseName string, q *query) {
 				return
 			}
 			fill()
-			w.l.violation(key("model"), "dolt's answer on the indexed tables differs from the brute-force evaluation (and from the reference engine)", wit)
+			w.l.violation(key("model", r5), "dolt's answer on the indexed tables differs from the brute-force evaluation (and from the reference engine)", wit)
 			return
 		}
 		cnt.add("model_agrees", 1)
 		if ok4 && !sameRows(r1.rows, r4.rows) {
 			cnt.add("reference_divergence", 1)
 			w.c.Note("reference-divergence (dolt == model != reference): " + truncate(sql1, 400) + " :: " + firstDiff(r1.rows, r4.rows))
-		}
-		if ok3 && !sameRows(r1.rows, r3.rows) {
-			cnt.add("twin_divergence", 1)
-			w.c.Note("twin-divergence (dolt indexed == model != dolt keyless twin): " + truncate(q.sql(vTwin), 400) + " :: " + firstDiff(r1.rows, r3.rows))
+			return
 		}
 		return
 	}
@@ -460,14 +547,13 @@ func (w *c26worker) judge(caseName string, q *query) {
 	case sameRows(r3.rows, r4.rows):
 		if !sameRows(r1.rows, r3.rows) {
 			fill()
-			w.l.violation(key("ref+twin"), "dolt's answer on the indexed tables differs from the common answer of its unindexed twin and the reference engine", wit)
+			w.l.violation(key("ref+twin", r4.rows), "dolt's answer on the indexed tables differs from the common answer of its unindexed twin and the reference engine", wit)
 		}
 	case sameRows(r1.rows, r3.rows):
 		cnt.add("reference_divergence", 1)
 		w.c.Note("reference-divergence (dolt indexed == dolt twin != reference): " + truncate(sql1, 400))
 	case sameRows(r1.rows, r4.rows):
-		cnt.add("twin_divergence", 1)
-		w.c.Note("twin-divergence (dolt indexed == reference != dolt keyless twin): " + truncate(q.sql(vTwin), 400))
+		cnt.add("indexed_vs_twin_divergence", 1)
 	default:
 		cnt.add("three_way_divergence", 1)
 		w.c.Note("three-way divergence: " + truncate(sql1, 400))
